@@ -23,7 +23,7 @@ def programs(ctx):
             p = Prog('c06-%s-%s' % (dm, u))
             p.setmode(dm)
             step = qu if qu else F(1, 16)
-            rng = range(-12, 41, 1 if not quick else 3)
+            rng = sorted(set(range(-12, 41, 1 if not quick else 3)) | {-2, -1, 1, 2})    # one / two quanta over many portions
             for j in rng:
                 p.make(1, t, step * j + (step * F(j % 16, 16) if not qu else 0), u, 'dec' if j % 2 else 'frac')
                 for rs in ratio_sets:
